@@ -53,10 +53,11 @@ RULE = ('append/kill: configurations {gzip, plain} x buffer {the real default, 6
         'index of the fault-free run x {OSError, kill} x partial-write amounts {0, 1, half, all-1, all}; OSError from the '
         'record source at 4 positions; the CLASS of the injected error is a dimension: OSError(ENOSPC), OSError(EIO), '
         'PermissionError(EACCES), PermissionError(EPERM), FileNotFoundError(ENOENT), InterruptedError (not on raw writes: '
-        'PEP 475, the io layer retries those itself), BlockingIOError, TimeoutError, bare IOError -- quick: the class '
+        'PEP 475, the io layer retries those itself), BlockingIOError, TimeoutError, bare IOError, and five kinds that are '
+        'NOT I/O errors: KeyboardInterrupt, asyncio.CancelledError, SystemExit, MemoryError, ValueError -- quick: the class '
         'rotates with the primitive index and the variant, so every class meets open, write, close, truncate, unlink; '
         'thorough: every class at every primitive; every single-fault run is extended by a second fault/kill at every later primitive '
-        '(thorough: all of them for bodies <= 200 bytes with no / 2 earlier records, 500 sampled per other configuration; '
+        '(thorough: all of them for bodies <= 200 bytes with no / 2 earlier records, 300 sampled per other configuration; '
         'quick: 100 sampled per small configuration) and a sample of third faults. Single kills are real child processes '
         '(os._exit at the primitive); in quick the kills of multi-fault schedules are simulated in-process and the '
         'simulation is compared with the real kill on every single-kill case. Logging: every single fault (and the '
@@ -66,7 +67,8 @@ RULE = ('append/kill: configurations {gzip, plain} x buffer {the real default, 6
         '{(no max_size, no log), (no max_size, log), (max_size 900, log), (max_size 900, no log)} x 5 sets of left-over '
         'archives (none; same name; plain + numbered + -meta; numbered + -meta; empty) -- 6 fixed lives (first append over '
         'a left-over file, roll-over + -meta over left-overs, appending with used numbers) + 4 sampled per quick run, the '
-        'whole grid in thorough -- x EVERY primitive of the life (constructor .. close()) x {OSError, real kill} (writes: '
+        'whole grid in thorough; plus lives under prefixes that carry the extension already / end in letters of ".warcgz" / '
+        'contain dots (3 fixed + 1 drawn in quick, 7 in thorough) -- x EVERY primitive of the life (constructor .. close()) x {OSError, real kill} (writes: '
         'prefix 0 and half), 30/60 second faults per life; 72 lives that start next to a crash journal (0/1/3 complete records + torn fragment, journal naming the cut; plain, numbered, -meta) which must be refused and be the identity on the directory; after every kill that leaves a journal: restarts in the default and the appending mode, directory compared byte for byte. startup: prefixes (plain, glob '
         'metacharacters, empty, non-ASCII) x journal present/absent x unrelated and near-miss names. '
         'non-trivial = at least one fault or kill is scheduled (startup: at least one file); '
@@ -102,11 +104,31 @@ _ERRNO = {'enospc': _errno.ENOSPC, 'eio': _errno.EIO, 'eacces': _errno.EACCES, '
           'enoent': _errno.ENOENT, 'eintr': _errno.EINTR, 'eagain': _errno.EAGAIN, 'etimedout': _errno.ETIMEDOUT}
 
 
+# exceptions that are NOT I/O errors but can surface inside an append just as well (second Ctrl+C with Python's
+# default SIGINT handler, task cancellation, sys.exit in a callback, out of memory, a bug in the record source)
+NON_OS_CLASSES = ['kbint', 'cancelled', 'sysexit', 'memory', 'exception']
+
+
+def is_os_class(cls):
+    return cls not in NON_OS_CLASSES
+
+
 def make_error(cls, msg, path=None):
     """OSError(ENOSPC) / OSError(EIO) / PermissionError(EACCES|EPERM) / FileNotFoundError / InterruptedError /
     BlockingIOError / TimeoutError (OSError's constructor picks the subclass from errno) / bare IOError."""
     if cls == 'ioerror':
         return IOError('injected ' + msg)
+    if cls == 'kbint':
+        return KeyboardInterrupt()
+    if cls == 'cancelled':
+        import asyncio
+        return asyncio.CancelledError()
+    if cls == 'sysexit':
+        return SystemExit(1)
+    if cls == 'memory':
+        return MemoryError()
+    if cls == 'exception':
+        return ValueError('injected ' + msg + ' (not an I/O error)')
     no = _ERRNO[cls or 'eio']
     return OSError(no, 'injected ' + msg, path) if path is not None else OSError(no, 'injected ' + msg)
 
@@ -592,7 +614,9 @@ def _run_inproc(env, record, schedule):
         with patched(inj):
             try:
                 env.rec.write_record(record)
-            except Exception as e:      # an OSError is expected; anything else is reported by the oracle
+            except Die:
+                raise
+            except BaseException as e:      # an OSError is expected; anything else is judged by the oracle
                 status, exc = 'raised', [exc_name(e), isinstance(e, OSError)]
                 early = env.state()     # what is on disk while the exception object is still alive
             # The exception object (traceback, frames, whatever file objects those frames still hold) is
@@ -633,7 +657,7 @@ def _run_child(env, record, schedule):
             with patched(inj):
                 try:
                     env.rec.write_record(record)
-                except Exception as e:
+                except BaseException as e:
                     status, exc = 'raised', [exc_name(e), isinstance(e, OSError)]
                 late_collect()
             _dump(out, status, inj.trace, exc)
@@ -757,19 +781,38 @@ def enc_optb(b):
     return 'None' if b is None else '=' + enc(b)
 
 
-def first_append_error_class(case, trace):
-    """Class of the error that comes out of the `with open_func(...)` block: the first failed primitive on the
-    archive opened for append (else the record source's)."""
-    sch = sched_of(case)
-    opens = 0
-    for i, (kind, role, arg, out) in enumerate(trace):
-        if kind == 'open' and role == 'a':
-            opens += 1
-            if opens >= 2:
-                break
-        if role == 'a' and opens <= 1 and out.startswith('fail') and i in sch:
-            return act_class(sch[i], 'enospc' if kind == 'write' else 'eio')
-    return case.get('src_cls') or 'eio'
+def injected_classes(case):
+    out = [act_class(a, 'eio') for a in sched_of(case).values() if a[0] == 'fail']
+    if case.get('src_fail') is not None:
+        out.append(case.get('src_cls') or 'eio')
+    return out
+
+
+def handler_class(sch, indexed_entries, default='eio'):
+    """Class of the exception the handlers of write_record see.  Journal creation and append cannot both fail in
+    one call.  Out of the journal's `with` block comes the LAST exception raised in it (a failing close replaces
+    the error of the write before it); for the append the class is irrelevant to the handler (any BaseException)."""
+    jfails, first = [], None
+    seen_archive = False
+    for i, entry in indexed_entries:
+        if entry[0] == 'mark':
+            continue
+        kind, role, out = entry[0], entry[1], entry[3]
+        if kind == 'open' and role == 'a' and entry[2] != 'w':
+            seen_archive = True
+        if out.startswith('fail') and i in sch:
+            c = act_class(sch[i], 'enospc' if kind == 'write' else 'eio')
+            if first is None:
+                first = c
+            if role == 'j' and not seen_archive and kind in ('open', 'write', 'close'):
+                jfails.append(c)
+    if jfails:
+        return jfails[-1]
+    return first or default
+
+
+def first_error_class(case, trace):
+    return handler_class(sched_of(case), list(enumerate(trace)), case.get('src_cls') or 'eio')
 
 
 def model_line(before, journal0, s, src_fail, cls='eio'):
@@ -810,7 +853,8 @@ def check_oracles(ctx, case, r):
                  'the first %d bytes of the archive differ from what it held before the append (status %s)'
                  % (len(b0), r['status']))
         return
-    if r['status'] == 'raised' and r.get('exc') and not r['exc'][1]:
+    non_os = [c for c in injected_classes(case) if not is_os_class(c)]
+    if r['status'] == 'raised' and r.get('exc') and not r['exc'][1] and not non_os:
         ctx.fail('fault-changed-exception', 'write_record', pc,
                  'the injected I/O error came out of write_record as %s, which is not an OSError' % r['exc'][0])
     complete = a[:len(b0)] == b0 and appended_is_record(r['env'], a[len(b0):], r['record_bytes'])
@@ -827,7 +871,17 @@ def check_oracles(ctx, case, r):
             ctx.tag('excluded:fault-in-rollback-or-unlink')
             return
         early = r.get('early')
-        if a != b0 and early is not None and (early[0] or b'') == b0:
+        if non_os:
+            # an exception that is not an I/O error (KeyboardInterrupt, CancelledError, SystemExit, MemoryError, a bug
+            # in the record source) interrupted the append: the archive must be restored, or the journal naming the
+            # pre-append length must still be there
+            m = _JOURNAL_RE.fullmatch(journal or b'')
+            if a != b0 and not (m and int(m.group(1)) == len(b0)):
+                ctx.fail('interrupt-unrecoverable', 'write_record', pc,
+                         '%s interrupted the append: the archive holds %d bytes (%d before) and %s'
+                         % ((r.get('exc') or ['an exception'])[0], len(a), len(b0),
+                            'no journal remains' if journal is None else 'the journal does not name the old length'))
+        elif a != b0 and early is not None and (early[0] or b'') == b0:
             ctx.fail('not-restored-after-exception-dropped', 'write_record', pc,
                      'the archive was restored (%d bytes) while the %s was alive, but once the exception object had been '
                      'dropped and the collector had run it holds %d bytes: something kept by the failed append wrote later'
@@ -888,7 +942,7 @@ def run_cases(ctx, cases):
         s, text = analyse(r['trace'])
         r['text'] = text
         lines.append(model_line(r['before'], None, s, case.get('src_fail') is not None,
-                                first_append_error_class(case, r['trace'])))
+                                first_error_class(case, r['trace'])))
         results.append(r)
     replies = ctx.model.ask(lines)
     for case, r, rep in zip(cases, results, replies):
@@ -921,7 +975,7 @@ def run_cases(ctx, cases):
 def classes_for(entry):
     # PEP 475: CPython's BufferedWriter itself re-issues a raw write that raised InterruptedError (EINTR never
     # reaches wpull from a write); everywhere else (open, truncate, close, unlink, stat, record source) it does.
-    return [c for c in ERR_CLASSES if not (entry[0] == 'write' and c == 'eintr')]
+    return [c for c in ERR_CLASSES + NON_OS_CLASSES if not (entry[0] == 'write' and c == 'eintr')]
 
 
 def variants(entry, kinds=('fail', 'die'), rich=True, rot=0, all_classes=False):
@@ -1039,6 +1093,10 @@ def sweep(ctx, compress, bufsize, prior, body_len, body_seed, doubles, rng, mult
 
 # ------------------------------------------------------------------ lives: constructor .. close() over a directory
 LIFE_PREFIX = 'crawl'
+
+
+def life_prefix(case):
+    return case.get('prefix') or LIFE_PREFIX
 _LEFT = {}
 
 
@@ -1116,7 +1174,7 @@ def dir_snapshot(d):
 
 def _life_body(d, tmp, case):
     WARCRecorder, WARCRecorderParams, _ = _mods()
-    rec = WARCRecorder(os.path.join(d, LIFE_PREFIX), params=WARCRecorderParams(
+    rec = WARCRecorder(os.path.join(d, life_prefix(case)), params=WARCRecorderParams(
         compress=case['compress'], log=case['log'], appending=case['appending'], max_size=case['max_size'],
         temp_dir=tmp))
     for i, n in enumerate(case['records']):
@@ -1127,7 +1185,7 @@ def _life_body(d, tmp, case):
 
 def _life_run(d, tmp, case, die_hook=None):
     import logging
-    inj = Injector(os.path.join(d, LIFE_PREFIX), sched_of(case), die_hook=die_hook)
+    inj = Injector(os.path.join(d, life_prefix(case)), sched_of(case), die_hook=die_hook)
     inj.dir = d
     inj.snapshot = lambda: dir_snapshot(d)
     root = logging.getLogger()
@@ -1139,7 +1197,9 @@ def _life_run(d, tmp, case, die_hook=None):
         with log_config(case.get('logging')), patched(inj):
             try:
                 _life_body(d, tmp, case)
-            except Exception as e:
+            except Die:
+                raise
+            except BaseException as e:
                 status = 'raised'
                 inj.exc = [exc_name(e), isinstance(e, OSError)]
                 if die_hook is None:
@@ -1177,7 +1237,7 @@ def run_life_real(case):
     try:
         ext = ext_of(case['compress'])
         for suffix, k, stale in case['leftovers']:
-            name = LIFE_PREFIX + suffix + ext
+            name = life_prefix(case) + suffix + ext
             good = (leftover_bytes(case['compress'], k) if k else b'') if k is not None else None
             if k is not None:
                 with builtins.open(os.path.join(d, name), 'wb') as f:
@@ -1220,7 +1280,7 @@ def run_life_real(case):
         final = dir_snapshot(d)
         restart_refused, restart_changed = None, []
         if any(n.endswith('-wpullinc') for n in final):
-            restart_refused, restart_changed = refused_restarts(d, os.path.join(d, LIFE_PREFIX), case['compress'],
+            restart_refused, restart_changed = refused_restarts(d, os.path.join(d, life_prefix(case)), case['compress'],
                                                                 case['max_size'])
         return {'restart_changed': restart_changed, 'status': status, 'trace': trace, 'names': names, 'snaps': snaps, 'init': init, 'final': final,
                 'restart_refused': restart_refused, 'exc': exc, 'early': early}
@@ -1232,7 +1292,7 @@ def run_life_real(case):
 def life_steps(r, appending):
     """Cut the logged life into steps (one per _start_new_warc_file / write_record call)."""
     steps, cur = [], None
-    for entry, name in zip(r['trace'], r['names']):
+    for idx, (entry, name) in enumerate(zip(r['trace'], r['names'])):
         if entry[0] == 'mark':
             if entry[1] == 'start':
                 cur = {'kind': 'startKeep' if appending else 'startTrunc', 'target': None, 'pre': [], 'body': [],
@@ -1249,6 +1309,9 @@ def life_steps(r, appending):
             cur = {'kind': 'append', 'target': name or '?', 'pre': [], 'body': [], 'in_body': True}
             steps.append(cur)
         (cur['body'] if cur['in_body'] else cur['pre']).append((entry, name))
+        cur.setdefault('idx', []).append((idx, entry))
+        if cur['in_body']:
+            cur.setdefault('body_from', idx)
     for st in steps:
         if st['target'] is None:
             st['target'] = st['pre'][0][1] if st['pre'] else '?'
@@ -1277,7 +1340,9 @@ def life_model_and_text(case, r):
         if st['body']:
             for (e, name), t in zip(st['body'], btext.split(',')):
                 text.append('%s|%s' % (enc(name or '?'), t))
-        toks.append(' '.join([st['kind'], enc(st['target']), topen, tclose, sch['getsize'], sch['jopen'], sch['jwrite'],
+        in_body = [(idx, e) for idx, e in st.get('idx', []) if (e, ) and idx >= st.get('body_from', 0)]
+        cls = handler_class(sched_of(case), in_body)
+        toks.append(' '.join([st['kind'], enc(st['target']), cls, topen, tclose, sch['getsize'], sch['jopen'], sch['jwrite'],
                               sch['jretry'], sch['jclose'], sch['junlink'], sch['aopen'],
                               '/'.join(enc(x) for x in sch['adata']) or '~', ','.join(sch['aouts']) or '~', 'F',
                               sch['aclose'], sch['ropen'], sch['rtrunc'], sch['rclose'], sch['unlink']]))
@@ -1286,7 +1351,7 @@ def life_model_and_text(case, r):
         universe |= {st['target'], st['target'] + '-wpullinc'}
     universe = sorted(universe)
     line = 'warcwrite life %s %d %s %d %s' % (
-        enc(LIFE_PREFIX), len(universe), ' '.join('%s %s' % (enc(n), enc_optb(r['init'].get(n))) for n in universe),
+        enc(life_prefix(case)), len(universe), ' '.join('%s %s' % (enc(n), enc_optb(r['init'].get(n))) for n in universe),
         len(steps), ' '.join(toks))
     real = '%s %s %s' % (r['status'], ','.join(text) or '~',
                          ';'.join('%s=%s' % (enc(n), enc_optb(r['final'].get(n))) for n in universe))
@@ -1303,7 +1368,8 @@ def check_life_oracles(ctx, case, r, steps):
     def fail(kind, detail):
         ctx.fail(kind, 'life', pc, detail)
 
-    if status == 'raised' and r.get('exc') and not r['exc'][1]:
+    non_os = [c for c in injected_classes(case) if not is_os_class(c)]
+    if status == 'raised' and r.get('exc') and not r['exc'][1] and not non_os:
         fail('fault-changed-exception', 'the life ended with %s, which is not an OSError (injected faults are I/O errors; '
              'a refused start is an OSError)' % r['exc'][0])
     if journals and not r['restart_refused']:
@@ -1372,7 +1438,13 @@ def check_life_oracles(ctx, case, r, steps):
             ctx.tag('excluded:fault-in-rollback-or-unlink')
             return
         early = r.get('early')
-        if a != b0 and early is not None and (early.get(T) or b'') == b0:
+        if non_os:
+            m = _JOURNAL_RE.fullmatch(jr or b'')
+            if a != b0 and not (m and int(m.group(1)) == len(b0)):
+                fail('interrupt-unrecoverable', '%s interrupted the append to %r: it holds %d bytes (%d before) and %s'
+                     % ((r.get('exc') or ['an exception'])[0], T, len(a), len(b0),
+                        'no journal remains' if jr is None else 'its journal does not name the old length'))
+        elif a != b0 and early is not None and (early.get(T) or b'') == b0:
             fail('not-restored-after-exception-dropped', 'archive %r was restored (%d bytes) while the %s was alive, but once '
                  'the exception object had been dropped and the collector had run it holds %d bytes'
                  % (T, len(b0), (r.get('exc') or ['exception'])[0], len(a)))
@@ -1400,7 +1472,7 @@ def check_life_oracles(ctx, case, r, steps):
 
 
 def life_key(case):
-    return ('life', case.get('logging', 'warning'), case.get('kill_mode', 'fork'), case['compress'], case['appending'], case['max_size'], case['log'],
+    return ('life', life_prefix(case), case.get('logging', 'warning'), case.get('kill_mode', 'fork'), case['compress'], case['appending'], case['max_size'], case['log'],
             tuple(tuple(x) for x in case['leftovers']), tuple(case['records']), tuple(sorted(sched_of(case).items())))
 
 
@@ -1417,10 +1489,12 @@ def run_lives(ctx, cases):
     for case, r, rep, real, steps in zip(cases, results, replies, reals, stepss):
         nfault = len(sched_of(case))
         tags = ['life:%s' % r['status'], 'life:steps=%d' % len(steps), 'life:faults=%d' % nfault,
+                'life:prefix=%s' % life_prefix(case),
                 'life:logging=%s' % ('debug(log=True)' if case['log'] else case.get('logging', 'warning'))]
         if steps:
             T = steps[-1]['target']
-            kind = '-meta' if '-meta.' in T else ('numbered' if T[len(LIFE_PREFIX):len(LIFE_PREFIX) + 1] == '-' else 'plain')
+            P = life_prefix(case)
+            kind = '-meta' if '-meta.' in T else ('numbered' if T[len(P):len(P) + 1] == '-' else 'plain')
             tags.append('life:in-flight=%s/%s' % (steps[-1]['kind'], kind))
             if nfault and steps[-1]['kind'] == 'startTrunc' and (r['init'].get(T)):
                 tags.append('life:fault-in-first-append-over-leftover')
@@ -1431,17 +1505,20 @@ def run_lives(ctx, cases):
     return results
 
 
-def life_case(compress, appending, max_size, log, leftovers, records, schedule=None, kill_mode='fork', logging='warning'):
-    return {'stream': 'life', 'logging': logging, 'kill_mode': kill_mode, 'compress': compress, 'appending': appending, 'max_size': max_size,
+def life_case(compress, appending, max_size, log, leftovers, records, schedule=None, kill_mode='fork', logging='warning',
+              prefix=None):
+    return {'prefix': prefix or LIFE_PREFIX, 'stream': 'life', 'logging': logging, 'kill_mode': kill_mode, 'compress': compress, 'appending': appending, 'max_size': max_size,
             'log': log, 'leftovers': [list(x) for x in leftovers], 'records': list(records),
             'schedule': {str(k): list(v) for k, v in (schedule or {}).items()}}
 
 
-def sweep_life(ctx, compress, appending, max_size, log, leftovers, records, rng, doubles=0, all_classes=False):
+def sweep_life(ctx, compress, appending, max_size, log, leftovers, records, rng, doubles=0, all_classes=False,
+               prefix=None):
     """Fault-free life, then OSError and a real kill at EVERY primitive of it (constructor, roll-over, close())."""
     multi_log = rng.choice(['debug', 'warning'])
     rot0 = rng.randrange(len(ERR_CLASSES))
-    mk = lambda sch: life_case(compress, appending, max_size, log, leftovers, records, sch, logging=multi_log)
+    mk = lambda sch: life_case(compress, appending, max_size, log, leftovers, records, sch, logging=multi_log,
+                               prefix=prefix)
     base = run_lives(ctx, [mk({})])[0]
     singles = []
     for i, entry in enumerate(base['trace']):
@@ -1514,13 +1591,21 @@ def run_life_stream(ctx, rng, thorough):
     for idx, (compress, appending, max_size, log, lo, records) in enumerate(must + extra):
         sweep_life(ctx, compress, appending, max_size, log, lo, records, rng, doubles=ctx.scale(30, 60),
                    all_classes=thorough and idx < len(must))
+    # the prefix is a dimension: plain stem; stems ending in letters of '.warcgz'; the extension already attached; dots
+    pl = [('media.warc.gz', True, None, False), ('crawl.warc', False, 900, True), ('crawl.warc.gz', True, 900, False),
+          ('arc', False, None, False), ('my.site.v2', True, 900, True), ('data.warc', True, None, False),
+          ('w.a.r.c.gz', False, 900, False)]
+    for idx, (prefix, compress, max_size, log) in enumerate(pl if thorough else pl[:3] + rng.sample(pl[3:], 1)):
+        sweep_life(ctx, compress, bool(idx % 2), max_size, log, LEFTOVER_SETS[1 if max_size is None else 2], [700, 50], rng,
+                   doubles=ctx.scale(10, 60), prefix=prefix)
     # stale journals of every archive name: the run must refuse and leave everything alone
     stale = []
     for compress in (False, True):
         for appending in (False, True):
             for max_size in (None, 900):
                 for lo in STALE_SETS:
-                    stale.append(life_case(compress, appending, max_size, False, lo, [50]))
+                    stale.append(life_case(compress, appending, max_size, False, lo, [50],
+                                           prefix=rng.choice([None, None, 'crawl.warc', 'media.warc.gz', 'arc'])))
     run_lives(ctx, stale)
 
 
@@ -1639,7 +1724,7 @@ def run(ctx):
         for (compress, bufsize, prior, body_len) in configs(thorough):
             small = body_len <= 1500
             if thorough:
-                doubles = 'all' if (body_len <= 200 and prior in (None, 2)) else 500
+                doubles = 'all' if (body_len <= 200 and prior in (None, 2)) else 300
             else:
                 doubles = ctx.scale(100, 100) if small else 0
             sweep(ctx, compress, bufsize, prior, body_len, rng.randrange(1000), doubles, rng,
@@ -1650,7 +1735,7 @@ def run(ctx):
         ctx.sample({'stream': 'kill', 'example': base_case('kill', False, None, 3, 9000, 0, {6: ('die', 100)})})
         ctx.note('fault_positions', 'every raw primitive of the fault-free run of every configuration gets OSError and a '
                  'kill (writes: 5 partial amounts); second faults at every later primitive: %s'
-                 % ('exhaustive for bodies <= 200 bytes with no / 2 earlier records, 500 per other configuration; all kills real'
+                 % ('exhaustive for bodies <= 200 bytes with no / 2 earlier records, 300 per other configuration; all kills real'
                     if thorough else 'sampled (100 per configuration), kills of multi-fault schedules simulated in-process'))
         ctx.exhaustive = False
     finally:
